@@ -61,6 +61,12 @@ CHECKS.update(
         note="math shim inside qto (ideal log10, floor/ceil via ToInt) is a stub and part of the claim; MIP search runs concretely; NaN/inf, uncertain magnitudes outside.",
         design="4/C15",
     ),
+    C17=dict(
+        text="ureg.wraps/check/with_context of the real code applied to ~1500 generated signature structures (specs None/unit/Unit/'=A'/'=A*B'/'=A**2', positional/keyword/default call forms, strict on/off, scalar/tuple/reference returns); "
+        "the magnitudes observed inside the wrapped function and the re-wrapped result are proved equal for all argument magnitudes to an independently written oracle; exceptions and arity rejection are part of the oracle.",
+        note="Structures are enumerated (1-2 parameters exhaustively, 3 sampled in quick); magnitudes symbolic. Specs referring to undefined names are outside the property and skipped.",
+        design="4/C17",
+    ),
     C20=dict(
         text="Every entry of an independently written table of standard values (about 230 units/constants, 32 prefixes, 5 temperature scales) is compared with the real registry "
         "for all magnitudes x (linear/affine map proved by z3), plus symbol and dimensionality. The solver's role is small; the strength is the independent table.",
